@@ -567,7 +567,9 @@ func TestC08(t *testing.T) {
 		"value in every field; run in a child process built with the runtime pointer checker (-d=checkptr) so that an abort is attributed to its cell. Oracle per cell that returns a view: reflect offsets/sizes show the " +
 		"view type lies inside the source value, every shared field (plus items<->orderedItems) reads equal, writes through a pointer view reach the original; an error return is always accepted. A go/parser census " +
 		"of unsafe.Pointer conversion sites checks that every site is exercised by a cell. intf: OnCollectionIntf on each of the four collection kinds and an item list held by pointer, with 0/1/3 members: " +
-		"members and Count read through the view as on the original, a member appended through the view is seen by the original. non-trivial = the cell returns a view of a different type; distinct by cell")
+		"members and Count read through the view as on the original, a member appended through the view is seen by the original. Further per cell: the same writes made inside a callback that then fails are seen " +
+		"while it runs and afterwards; one more round with the source naming the viewed type as its own; two views of two values never share memory. lists: every On* helper on an item list (by value and by pointer) of 2 and 3 members of its " +
+		"own type: one call per member, in order, each handed that very member, each write landing on it. non-trivial = the cell returns a view of a different type; distinct by cell")
 	r.Note("only_enumerated_layers", true)
 	r.Note("checkptr", "test binary built with -gcflags=all=-d=checkptr")
 
@@ -625,6 +627,73 @@ func TestC08(t *testing.T) {
 		}
 		r.Cells(n, n)
 		r.Exhaustive("intf", !r.Replaying())
+	}
+
+	// ---- an item list handed to an On* helper: the callback is run for every member, each time with the view of that member - the
+	// views arrive in the members' order, each one is the member it was made from (same type: the very pointer), and what is written
+	// through it lands on that member
+	if r.WantLayer("lists", true) {
+		n := 0
+		for _, h := range c08Helpers {
+			if !strings.HasPrefix(h.name, "On") {
+				continue
+			}
+			for _, size := range []int{2, 3} {
+				for _, holder := range []string{"ItemCollection", "*ItemCollection"} {
+					cell := fmt.Sprintf("%s(%s of %d %s)", h.name, holder, size, h.target)
+					if !r.WantCell(cell) {
+						continue
+					}
+					n++
+					r.Case(cell, true, "lists helper="+h.name)
+					st := vocab.StructType(h.target)
+					var members []reflect.Value
+					l := ap.ItemCollection{}
+					for k := 0; k < size; k++ {
+						m := c08Populate(st, k)
+						members = append(members, m)
+						l = append(l, m.Interface().(ap.Item))
+					}
+					var arg ap.Item = l
+					if holder == "*ItemCollection" {
+						arg = &l
+					}
+					var seen []uintptr
+					c08Inside = func(v interface{}) error {
+						rv := reflect.ValueOf(v)
+						seen = append(seen, rv.Pointer())
+						if f := rv.Elem().FieldByName("MediaType"); f.IsValid() && f.Kind() == reflect.String {
+							f.SetString(fmt.Sprintf("written/through-view-%d", len(seen)-1))
+						}
+						return nil
+					}
+					pi := evSafe(func() { _, _ = h.call(arg) })
+					c08Inside = nil
+					key := "view " + h.name + " list "
+					switch {
+					case pi != nil:
+						r.Report("lists", cell, key+"panic@"+pi.Frame, pi.Value, cell)
+					case len(seen) == 0:
+						// refused, or not a helper that walks lists: acceptable
+					case len(seen) != size:
+						r.Report("lists", cell, key+"calls", fmt.Sprintf("the callback ran %d times for a list of %d members", len(seen), size), cell)
+					default:
+						for k := range members {
+							if seen[k] != members[k].Pointer() {
+								r.Report("lists", cell, key+"wrong-member", fmt.Sprintf("call #%d was handed a view that is not member #%d", k, k), cell)
+								break
+							}
+							if f := members[k].Elem().FieldByName("MediaType"); f.IsValid() && f.Kind() == reflect.String && f.String() != fmt.Sprintf("written/through-view-%d", k) {
+								r.Report("lists", cell, key+"write", fmt.Sprintf("what call #%d wrote is not on member #%d (its mediaType is %q)", k, k, f.String()), cell)
+								break
+							}
+						}
+					}
+				}
+			}
+		}
+		r.Cells(n, n)
+		r.Exhaustive("lists", !r.Replaying())
 	}
 
 	// census of the conversion sites: completeness of the generated domain, not a verdict
